@@ -1,6 +1,95 @@
-import RucteModel
+import RucteProofs.GenLemmas
 
-/-! # C12 — placeholder: theorems are added as they are proved. -/
+/-!
+# C12 — incremental output equals a clean build; unchanged files are untouched
+
+`buildLog` is what a run of the build script *asks for* (the sequence of
+`write_if_changed(path, content)` requests; it does not depend on OUT_DIR, because nothing in
+ructe reads OUT_DIR except `write_if_changed`), `runLog fs log` carries the requests out on the
+prior OUT_DIR state `fs`, `build … fs … = runLog fs (buildLog …)`.  The theorems quantify over
+**every** prior state `fs`: the results of any earlier builds, files truncated by a crash at any
+point, arbitrary garbage.
+-/
 namespace Ructe.C12
-theorem placeholder : True := trivial
+open Nom
+
+/-- `write_if_changed`: afterwards the file holds the content, nothing else changed, and the file
+is physically written iff it did not already hold exactly that content -/
+theorem applyWrite_post (o : FS × List Bytes) (p c : Bytes) :
+    (applyWrite o (p, c)).1.get p = some c ∧
+    (∀ q, q ≠ p → (applyWrite o (p, c)).1.get q = o.1.get q) ∧
+    ((applyWrite o (p, c)).2 = o.2 ↔ o.1.get p = some c) ∧
+    (o.1.get p ≠ some c → (applyWrite o (p, c)).2 = o.2 ++ [p]) := by
+  unfold applyWrite
+  by_cases h : o.1.get p = some c
+  · simp [h]
+  · simp [h, FS.get_set_same]
+    intro q hq
+    exact FS.get_set_other _ _ _ _ hq
+
+/-- after a run every path holds what the last request for it asked for; other paths are untouched -/
+theorem runLog_get (fs : FS) (l : Log) (p : Bytes) :
+    (runLog fs l).fs.get p = (match lastWrite l.writes p with | some c => some c | none => fs.get p) :=
+  runLog_fs_get fs l p
+
+/-- **incremental = clean**: on every path the run writes (everything reachable from
+`templates.rs` is written by the run), the result is the same whatever OUT_DIR held before -/
+theorem incremental_eq_clean (ue ua : Nat → Bool) (feat : MimeFeature) (fs : FS) (outdir utils : Bytes) (ops : List Op)
+    (p : Bytes) (hp : p ∈ (buildLog ue ua feat outdir utils ops).writes.map (·.1)) :
+    (build ue ua feat fs outdir utils ops).fs.get p = (build ue ua feat [] outdir utils ops).fs.get p := by
+  unfold build
+  rw [runLog_get, runLog_get]
+  cases h : lastWrite (buildLog ue ua feat outdir utils ops).writes p with
+  | some c => rfl
+  | none => exact absurd hp ((lastWrite_eq_none_iff _ _).mp h)
+
+/-- paths the run does not write keep whatever they held (stale files are left alone, never half-updated) -/
+theorem untouched_elsewhere (ue ua : Nat → Bool) (feat : MimeFeature) (fs : FS) (outdir utils : Bytes) (ops : List Op)
+    (p : Bytes) (hp : p ∉ (buildLog ue ua feat outdir utils ops).writes.map (·.1)) :
+    (build ue ua feat fs outdir utils ops).fs.get p = fs.get p := by
+  unfold build
+  rw [runLog_get, (lastWrite_eq_none_iff _ _).mpr hp]
+
+/-- what is printed does not depend on OUT_DIR either -/
+theorem stdout_independent (ue ua : Nat → Bool) (feat : MimeFeature) (fs : FS) (outdir utils : Bytes) (ops : List Op) :
+    (build ue ua feat fs outdir utils ops).stdout = (build ue ua feat [] outdir utils ops).stdout := by
+  rfl
+
+/-- a log in which no path is asked to hold two different contents -/
+def Consistent (ws : List (Bytes × Bytes)) : Prop := ∀ p c c', (p, c) ∈ ws → (p, c') ∈ ws → c = c'
+
+/-- a run on a state that already holds everything it asks for writes nothing -/
+theorem silent_when_up_to_date (fs : FS) (l : Log) (h : ∀ pc ∈ l.writes, fs.get pc.1 = some pc.2) :
+    (runLog fs l).writes = [] ∧ (runLog fs l).fs = fs := by
+  unfold runLog
+  simp only
+  rw [foldl_applyWrite_silent l.writes (fs, []) h]
+  exact ⟨rfl, rfl⟩
+
+/-- **second run silent** (a corollary): running the same requests again on the result performs no physical write -/
+theorem second_run_silent (fs : FS) (l : Log) (hc : Consistent l.writes) :
+    (runLog (runLog fs l).fs l).writes = [] := by
+  have h : ∀ pc ∈ l.writes, (runLog fs l).fs.get pc.1 = some pc.2 := by
+    intro pc hpc
+    rw [runLog_get]
+    cases h : lastWrite l.writes pc.1 with
+    | some d =>
+      have := lastWrite_mem _ _ _ h
+      simp only
+      rw [hc pc.1 d pc.2 this hpc]
+    | none =>
+      exact absurd (List.mem_map_of_mem hpc) ((lastWrite_eq_none_iff _ _).mp h)
+  exact (silent_when_up_to_date _ l h).1
+
+/-- only requested paths are ever physically written -/
+theorem writes_subset (fs : FS) (l : Log) : ∀ p ∈ (runLog fs l).writes, p ∈ l.writes.map (·.1) := by
+  intro p hp
+  rcases foldl_applyWrite_writes l.writes (fs, []) p hp with h | h
+  · simp at h
+  · exact h
+
+/-! Non-vacuity -/
+example : Consistent [([1], [2]), ([3], [4]), ([1], [2])] := by
+  intro p c c' h1 h2; simp at h1 h2; rcases h1 with ⟨rfl, rfl⟩ | ⟨rfl, rfl⟩ | ⟨rfl, rfl⟩ <;> rcases h2 with ⟨h, rfl⟩ | ⟨h, rfl⟩ | ⟨h, rfl⟩ <;> simp_all
+
 end Ructe.C12
